@@ -8,6 +8,9 @@ import (
 // validated with the rules model at worker start).
 var Corpus = []string{
 	rules.StartFen,
+	// crowded boards with legal material: more than 64 legal moves in one position
+	"r1qqk2r/1q4q1/pp4pp/8/8/PP4PP/1Q4Q1/R1QQK2R w - - 0 1",
+	"R6R/3Q4/1Q4Q1/4Q3/2Q4Q/Q4Q2/pp1Q4/kBNN1KB1 w - - 0 1",
 	// openings / middlegames
 	"r1bqkbnr/pppp1ppp/2n5/4p3/4P3/5N2/PPPP1PPP/RNBQKB1R w KQkq - 2 3",
 	"rnbqkb1r/pp2pppp/3p1n2/8/3NP3/8/PPP2PPP/RNBQKB1R w KQkq - 1 5",
